@@ -419,6 +419,10 @@ class ExprMixin:
         f = c.field(attr)
         if f is not None or (attr in c.class_attrs and attr not in c.methods and not obj.constructed and c.class_attrs[attr] is None):
             if obj.constructed:
+                if f is not None and f.default is not None:
+                    v = self.eval(f.default, Frame(None, c.module, {}, c))
+                    obj.fields[attr] = v
+                    return v
                 raise Unmodelled("field %s of constructed %s was never set at %s" % (attr, c.name, frame.loc(node)))
             ann = f.ann if f is not None else None
             ty = parse_type(self.repo, c.module, ann, c)
